@@ -143,7 +143,9 @@ class Engine:
 
     def add_pc(self, e):
         self.solver.add(e)
-        self.pc_hash = hash((self.pc_hash, e.get_id()))
+        # 128-bit running fingerprint of the assertion stack (collision-safe key for the query memo)
+        self.pc_hash = hashlib.blake2b(b"%d:%d" % (self.pc_hash, e.get_id()), digest_size=16).digest()
+        self.pc_hash = int.from_bytes(self.pc_hash, "little")
         self.pc_refs.append(e)
 
     def feasible(self, g):
